@@ -48,6 +48,23 @@ func MultiProjects() []MProj {
 		"main.fer":      "import \"std/io\";\nimport \"proj/outer/lib\" as o;\nfn main() {\n    io::Println(o::Size(1));\n    io::Println(o::Both(1));\n}\n",
 		"outer/lib.fer": "import \"proj/inner/lib\" as inn;\n" + bodies(2) + "fn Both(w: i32) -> i32 { return Size(w) * 100 + inn::Size(w); }\n",
 		"inner/lib.fer": bodies(7)}, []string{"4", "414"}})
+	// two importers bind the same alias to different modules
+	valOf := func(k int) string { return fmt.Sprintf("fn Val() -> i32 { return %d; }\nfn Twice(v: i32) -> i32 { return v * %d; }\n", k, k) }
+	user := func(path string, k int) string {
+		return "import \"proj/" + path + "\";\nfn Get() -> i32 { return util::Val() + util::Twice(1) + " + fmt.Sprint(k) + "; }\n"
+	}
+	out = append(out, MProj{"same-alias-different-modules", map[string]string{
+		"main.fer":    "import \"std/io\";\nimport \"proj/left\";\nimport \"proj/right\";\nimport \"proj/l/util\";\nfn main() {\n    io::Println(left::Get());\n    io::Println(right::Get());\n    io::Println(util::Val());\n    io::Println(left::Get());\n}\n",
+		"left.fer":    user("l/util", 100),
+		"right.fer":   user("r/util", 200),
+		"l/util.fer": valOf(1),
+		"r/util.fer": valOf(5)}, []string{"102", "210", "1", "102"}})
+	out = append(out, MProj{"same-alias-different-modules-reversed", map[string]string{
+		"main.fer":    "import \"std/io\";\nimport \"proj/right\";\nimport \"proj/left\";\nfn main() {\n    io::Println(right::Get());\n    io::Println(left::Get());\n    io::Println(right::Get());\n}\n",
+		"left.fer":    user("l/util", 100),
+		"right.fer":   user("r/util", 200),
+		"l/util.fer": valOf(1),
+		"r/util.fer": valOf(5)}, []string{"210", "102", "210"}})
 	// strings that are not ASCII: length, indexing from both ends, comparison, concatenation
 	for i, sv := range []string{"entrée", "naïve café", "日本", "aé", "é", "x\u00e9y"} {
 		n := len(sv) // bytes
